@@ -246,7 +246,8 @@ func judgeBuffer(rep *lib.Report, prop string, h []BOp, variant int, st lib.BufS
 	if is("C01") && !wf {
 		rep.Violate("buffer:illformed", "output not well-formed: "+lib.Q(out), kase)
 	}
-	if is("C09") && !wf {
+	if (is("C09") || is("C10")) && !wf {
+		// (C10: a marker that data brought in survives exactly when the output is not what the library's own markers make)
 		rep.Violate("buffer:illformed", "output not well-formed: "+lib.Q(out), kase)
 	}
 	if is("C03") || is("C09") {
@@ -261,7 +262,7 @@ func judgeBuffer(rep *lib.Report, prop string, h []BOp, variant int, st lib.BufS
 			rep.Violate("buffer:perline", "line-wise redact/strip differs from whole: "+lib.Q(out), kase)
 		}
 	}
-	if is("C09") && wf {
+	if (is("C09") || is("C10")) && wf {
 		ds, dd, ok := denoteHistory(h)
 		if ok {
 			if got := lib.Strip(out); !bytes.Equal(got, ds) {
